@@ -8,6 +8,7 @@
 import SalsaVerif.Proofs.CoreSpecFresh
 import SalsaVerif.Proofs.CoreSpecCompile
 import SalsaVerif.Proofs.CoreSpecExamples
+import SalsaVerif.Proofs.CoreSpecRevWitness
 
 namespace SalsaVerif.Props.C10
 open SalsaVerif.Model.CoreSpec SalsaVerif.Proofs.CoreSpec
@@ -362,5 +363,75 @@ example : Wf PA := c10_wf_of_check esA (.inp 3) (by decide)
 example : (run PA inpA (gets [0, 1])).panic = none ∧ (run PA inpA (gets [1, 0])).panic = none ∧
     outputs PA (init inpA) (gets [0, 1]) = [⟨0, some 0⟩, ⟨3, none⟩] ∧
     outputs PA (init inpA) (gets [1, 0]) = [⟨3, none⟩, ⟨0, some 0⟩] := by decide
+
+/-! ### why `Wf` alone is not enough for histories with writes: two witnesses
+
+  Both programs satisfy `Wf` (the well-formedness of the one-revision theorem), run without panic,
+  and the MODEL returns a value that is not the from-scratch value after a write. -/
+
+theorem wf_PW1 : Wf PW1 := by
+  refine ⟨?_, fun _ _ => WfS.ret 2⟩
+  intro q
+  match q with
+  | 0 =>
+    refine WfB.create _ _ _ (WfB.inp _ _ ?_)
+    intro n
+    dsimp only
+    split
+    · exact WfB.specify _ _ _ (WfB.ret _ (by intro c h; cases h; exact Nat.le_refl _))
+    · exact WfB.ret _ (by intro c h; cases h; exact Nat.le_refl _)
+  | 1 =>
+    refine WfB.qry 0 _ (by decide) ?_
+    intro v hv
+    cases hh : v.h with
+    | none => simp only; exact WfB.ret _ (by intro c h; cases h)
+    | some c =>
+      simp only
+      have := hv c hh
+      exact WfB.spec c _ (by omega) (fun n => WfB.ret _ (by intro c h; cases h))
+  | n + 2 => exact WfB.ret _ (by intro c h; cases h)
+
+theorem wf_PW2 : Wf PW2 := by
+  refine ⟨?_, fun _ _ => WfS.read 1 _ (fun n => WfS.ret n)⟩
+  intro q
+  match q with
+  | 0 =>
+    refine WfB.inp _ _ ?_
+    intro n
+    refine WfB.create _ _ _ ?_
+    dsimp only
+    split
+    · exact WfB.specify _ _ _ (WfB.ret _ (by intro c h; cases h; exact Nat.le_refl _))
+    · exact WfB.ret _ (by intro c h; cases h; exact Nat.le_refl _)
+  | 1 => exact WfB.spec 0 _ (by decide) (fun n => WfB.ret _ (by intro c h; cases h))
+  | n + 2 => exact WfB.ret _ (by intro c h; cases h)
+
+/-- The model-level twin of the recorded known finding kf3 (`specify-over-never-change-computed`,
+    /verif/corpus/C10/kf3-specify-over-never-change.ops, which real salsa reproduces: 2 instead
+    of 3).  `PW1` (Proofs/CoreSpecRevWitness.lean): the creator makes its struct BEFORE reading the
+    flag input, so the struct and the computed `spec` memo are NEVER_CHANGE and the reader records
+    no edge on `spec`; when the creator starts specifying 3 in the next revision the reader keeps
+    the computed 2.  The full property is FALSE of both model and implementation at this point;
+    the well-formedness `Wf2` of `c10_sound` (`specify` directly after `create`, all reads the
+    decision depends on before the `create`) excludes exactly it. -/
+theorem c10_never_change_witness :
+    Wf PW1 ∧ (run PW1 inpW [.get 1, .set 0 1 none, .get 1]).panic = none ∧
+    outputs PW1 (init inpW) [.get 1, .set 0 1 none, .get 1] = [⟨2, none⟩, ⟨2, none⟩] ∧
+    refOutputs PW1 (fun i => ((inpW i).val, (inpW i).dur)) [.get 1, .set 0 1 none, .get 1] =
+      [⟨2, none⟩, ⟨3, none⟩] :=
+  ⟨wf_PW1, by decide⟩
+
+/-- A reader that names a struct without having received its handle from a query (`PW2`: node 1
+    reads `spec(struct of 0)` directly; violates assumption A1 of the model, not expressible in
+    real salsa or in the line protocol): it has no edge to the creator, so when the creator starts
+    specifying, the computed value is re-validated and returned.  `Wf2` excludes it (handles are
+    used only after they were received). -/
+theorem c10_unreceived_handle_witness :
+    Wf PW2 ∧ (run PW2 inpW [.get 0, .get 1, .set 0 1 none, .get 1]).panic = none ∧
+    outputs PW2 (init inpW) [.get 0, .get 1, .set 0 1 none, .get 1] =
+      [⟨1, some 0⟩, ⟨0, none⟩, ⟨0, none⟩] ∧
+    refOutputs PW2 (fun i => ((inpW i).val, (inpW i).dur)) [.get 0, .get 1, .set 0 1 none, .get 1] =
+      [⟨1, some 0⟩, ⟨0, none⟩, ⟨3, none⟩] :=
+  ⟨wf_PW2, by decide⟩
 
 end SalsaVerif.Props.C10
